@@ -270,10 +270,10 @@ fn long_detectors(left: usize, right: usize, total: usize, seed: u64, r: &mut Re
 	r.max("longest stream (steps)", t as f64);
 }
 
-/// long candle stream: 3000-step segments through a regime schedule (walk, long ramps, flat stretches, trends, grid, zero volume, clean)
+/// long candle stream: 3000-step segments through a regime schedule (walk, long ramps, trend+ripple, flat stretches, trends, grid, zero volume, clean)
 fn long_candles(total: usize, seed: u64) -> Vec<yata::core::Candle> {
 	let mut cs: Vec<yata::core::Candle> = Vec::with_capacity(total);
-	let sched = [0usize, 7, 1, 4, 3, 2, 6, 7];
+	let sched = [0usize, 7, 8, 1, 4, 3, 8, 2, 6, 7];
 	let mut j = 0usize;
 	while cs.len() < total {
 		let class = sched[j % sched.len()];
